@@ -171,7 +171,11 @@ def _matching(fname, strat, a, b):
             inv=["forall(0, _it0, lambda j: 0 <= M[j] and M[j] < len(%s))" % b,
                  "forall(0, _it0, lambda j: forall(0, len(%s), lambda q: %s <= %s))" % (b, _D("(%s)[j]" % a, "(%s)[M[j]]" % b), _D("(%s)[j]" % a, "(%s)[q]" % b)),
                  "error == Sum(0, _it0, lambda j: %s)" % tj, "error >= 0"],
-            ghost_end=["M = store(M, _it0 - 1, idx)"]      # the counter is already advanced when ghost_end runs,
+            ghost_end=["M = store(M, _it0 - 1, idx)"],      # the counter is already advanced when ghost_end runs
+            hints=["forall(0, _it0 - 1, lambda j: M[j] == _h_M[j])",
+                   "Sum(0, _it0 - 1, lambda j: %s) == Sum(0, _it0 - 1, lambda j: %s)" % (tj, tj.replace("M[j]", "_h_M[j]")),
+                   "M[_it0 - 1] == idx",
+                   "Sum(0, _it0, lambda j: %s) == Sum(0, _it0 - 1, lambda j: %s) + %s" % (tj, tj, tj.replace("[j]", "[_it0 - 1]"))],
         )},
     )
 
@@ -198,3 +202,38 @@ for _f in ("mae", "mse"):
                               "distances[idx] >= 0", "distances[idx] == 0",
                               "sq(b[idx][0] - p[0]) + sq(b[idx][1] - p[1]) == 0",
                               "b[idx][0] == p[0] and b[idx][1] == p[1]"])})
+
+
+# rmse = sqrt(mse): the callee's value is named by an uninterpreted term so that the identity can be stated
+C["kneeliverse.evaluation.rmse"] = dict(
+    mode="R", owner="C19", params=_MATCH_PARAMS, returns="Real", requires=_MATCH_REQ,
+    use={"kneeliverse.evaluation.mse": "kneeliverse.evaluation.rmse#callee"},
+    ensures=["result >= 0", "result == sqrt(uf('MSE', 'Real', points, knees, expected, s))", "uf('MSE', 'Real', points, knees, expected, s) >= 0"])
+C["kneeliverse.evaluation.rmse#callee"] = dict(
+    function="kneeliverse.evaluation.mse", mode="R", summary=True, params=_MATCH_PARAMS, returns="Real", requires=_MATCH_REQ,
+    returns_expr="uf('MSE', 'Real', points, knees, expected, s)", ensures=["result >= 0"])
+
+# rmspe: defined and non-negative for curves with non-negative coordinates (p + eps != 0), zero on perfect detection
+_NONNEG = ["eps > 0", "forall(0, len(points), lambda k: points[k][0] >= 0 and points[k][1] >= 0)",
+           "forall(0, len(expected), lambda k: expected[k][0] >= 0 and expected[k][1] >= 0)"]
+C["kneeliverse.evaluation.rmspe"] = dict(
+    mode="R", owner="C19", params=dict(_MATCH_PARAMS, eps="Real"), returns="Real", locals={"errors": "Seq[Real]"},
+    requires=_MATCH_REQ + _NONNEG, ensures=["result >= 0"],
+    loops={0: dict(inv=["len(errors) == 2 * _it0"])})
+C["kneeliverse.evaluation.rmspe#perfect"] = dict(
+    function="kneeliverse.evaluation.rmspe", mode="R", owner="C19", params=dict(_MATCH_PARAMS, eps="Real"), returns="Real", locals={"errors": "Seq[Real]"},
+    requires=_MATCH_REQ + _NONNEG + ["len(expected) == len(knees)",
+                                     "forall(0, len(knees), lambda k: expected[k][0] == points[knees[k]][0] and expected[k][1] == points[knees[k]][1])"],
+    ensures=["result == 0"],
+    post_hints=["forall(0, len(errors), lambda k: sq(errors[k]) == 0)", "Sum(0, len(errors), lambda k: sq(errors[k])) == 0"],
+    loops={0: dict(inv=["len(errors) == 2 * _it0", "forall(0, len(errors), lambda k: errors[k] == 0)",
+                        "len(a) == len(b)", "forall(0, len(a), lambda k: a[k][0] == b[k][0] and a[k][1] == b[k][1])"],
+                   hints=["p[0] == a[_it0 - 1][0] and p[1] == a[_it0 - 1][1]",
+                          "sq(b[_it0 - 1][0] - p[0]) + sq(b[_it0 - 1][1] - p[1]) == 0",
+                          "distances[_it0 - 1] == sqrt(sq(b[_it0 - 1][0] - p[0]) + sq(b[_it0 - 1][1] - p[1]))",
+                          "distances[_it0 - 1] == 0", "distances[idx] <= distances[_it0 - 1]",
+                          "distances[idx] == sqrt(sq(b[idx][0] - p[0]) + sq(b[idx][1] - p[1]))",
+                          "distances[idx] >= 0", "distances[idx] == 0",
+                          "sq(b[idx][0] - p[0]) + sq(b[idx][1] - p[1]) == 0",
+                          "b[idx][0] == p[0] and b[idx][1] == p[1]",
+                          "e[0] == 0 and e[1] == 0"])})
